@@ -195,11 +195,11 @@ func readICCP(r binary.Reader, chunkLen uint32) ([]byte, error) {
 	}
 
 	// Extract ICCP.
-	data := make([]byte, ch.Length)
-	if _, err := io.ReadFull(r, data); err != nil {
+	data := &bytes.Buffer{}
+	if _, err := io.CopyN(data, r, int64(ch.Length)); err != nil {
 		return nil, err
 	}
-	return data, nil
+	return data.Bytes(), nil
 }
 
 func verifySignature(r binary.Reader) error {
